@@ -343,4 +343,150 @@ theorem recvLoop_sync (proto : Nat) (hp1 : 1 ≤ proto) (hp5 : proto ≤ 5) (dl 
       | some w =>
         cases w <;> simp [recvLoop, hh, hnb, hnbig, hle, hev, hfind, hrb, ih, dispatch]
 
+/-! ### without `Calm`: a body read either completes with exactly the body, or gives up on a read deadline —
+it never delivers anything else and never loses its place silently -/
+
+theorem connRead_cases (dl : Bool) : ∀ (a : Nat) (src : Src) (k : Nat), k ≤ (bytes src).length →
+    connRead dl a src k = ((bytes src).take k, .ok, dropBytes k src) ∨ (connRead dl a src k).2.1 = .timeout
+  | 0, _, _, _ => Or.inr (by simp [connRead])
+  | a + 1, src, k, h => by
+    cases dl with
+    | false => exact Or.inl (connRead_nodl a src k h)
+    | true =>
+      by_cases h0 : expiriesBefore k src = 0
+      · left; simp [connRead, readFull_dl_clear src k h h0]
+      · have hx := readFull_dl_expiry src k h (by omega)
+        rcases connRead_cases true a (readFull true src k).2.2 (k - (readFull true src k).1.length) hx.2.2.2.2.2 with ih | ih
+        · left
+          simp only [connRead, hx.1, ih]
+          rw [← hx.2.2.1, ← hx.2.2.2.1]
+        · right
+          simp only [connRead, hx.1]
+          exact ih
+
+theorem discard_cases (dl : Bool) : ∀ (f : Nat) (src : Src) (n : Nat), n ≤ f → n ≤ (bytes src).length →
+    discard dl f src n = (.ok, dropBytes n src) ∨ (discard dl f src n).1 = .timeout
+  | 0, src, n, hf, _ => by
+    have : n = 0 := by omega
+    subst this; left; simp [discard, dropBytes]
+  | f + 1, src, n, hf, h => by
+    by_cases h0 : n = 0
+    · subst h0; left; simp [discard, dropBytes]
+    · have hk : min n discardChunk ≤ (bytes src).length := by omega
+      have hsplit : n = min n discardChunk + (n - min n discardChunk) := by omega
+      have hpos : 0 < min n discardChunk := by simp [discardChunk]; omega
+      rcases connRead_cases dl maxAttempts src (min n discardChunk) hk with hc | hc
+      · rcases discard_cases dl f (dropBytes (min n discardChunk) src) (n - min n discardChunk) (by omega)
+          (by rw [bytes_dropBytes]; simp; omega) with ih | ih
+        · left
+          simp only [discard, h0, if_false, hc, ih]
+          rw [← dropBytes_add, ← hsplit]
+        · right
+          simp only [discard, h0, if_false, hc]
+          exact ih
+      · right
+        simp only [discard, h0, if_false]
+        rw [hc]
+
+theorem readBody_cases (dl : Bool) (src : Src) (f : Frame) (rest : List UInt8) (proto : Nat) (hwf : f.wf proto)
+    (hb : bytes src = f.body ++ rest) :
+    readBody dl src f.h = (.ok, f.body, .ok, dropBytes f.body.length src) ∨
+    ((readBody dl src f.h).1 = .gaveUp ∧ (readBody dl src f.h).2.2.1 = .timeout) := by
+  obtain ⟨_, hfl, _, hlen, _⟩ := hwf
+  have hk : f.body.length ≤ (bytes src).length := by rw [hb]; simp
+  have hn : ¬ f.h.length < 0 := by omega
+  have ht : f.h.length.toNat = f.body.length := by omega
+  have hfl' : ¬ f.h.flags.toNat % 2 = 1 := by omega
+  rcases connRead_cases dl maxAttempts src f.body.length hk with hcr | hcr
+  · left; simp only [readBody, hn, if_false, ht, hcr, hfl', hb, List.take_left']
+  · right; simp only [readBody, hn, if_false, ht]; rw [hcr]; exact ⟨rfl, rfl⟩
+
+/-- what the loop may return for well-formed frames `fs`: everything dispatched; or — when a body read gave up
+on a read deadline — the dispatch of the frames before that one, one record for the frame the loop ended in
+(its own header, nothing of it handed to anyone) and the time-out status, with which Conn.serve closes the
+connection -/
+def SyncOut (cs : Calls) (fs : List Frame) (o : Out) : Prop :=
+  o = ⟨dispatch cs fs, .eof⟩ ∨
+  ∃ n f d r, fs[n]? = some f ∧ r ≠ .ok ∧ o = ⟨(dispatch cs fs).take n ++ [⟨d, r, f.h, []⟩], .tmo⟩
+
+theorem syncOut_stop (cs : Calls) (f : Frame) (fs : List Frame) (d : Disp) (r : BodyRes) (hr : r ≠ .ok) :
+    SyncOut cs (f :: fs) ⟨[⟨d, r, f.h, []⟩], .tmo⟩ :=
+  Or.inr ⟨0, f, d, r, rfl, hr, by simp⟩
+
+theorem syncOut_cons (cs cs' : Calls) (f : Frame) (fs : List Frame) (r0 : Rec) (o : Out)
+    (hd : dispatch cs (f :: fs) = r0 :: dispatch cs' fs) (ho : SyncOut cs' fs o) :
+    SyncOut cs (f :: fs) ⟨r0 :: o.recs, o.status⟩ := by
+  rcases ho with ho | ⟨n, g, d, r, hg, hr, ho⟩
+  · left; rw [ho, hd]
+  · right
+    refine ⟨n + 1, g, d, r, by simpa using hg, hr, ?_⟩
+    rw [ho, hd]; simp
+
+theorem recvLoop_sync_full (proto : Nat) (hp1 : 1 ≤ proto) (hp5 : proto ≤ 5) (dl : Bool) :
+    ∀ (fs : List Frame) (fuel : Nat) (cs : Calls) (src : Src), fs.length < fuel →
+    (∀ f ∈ fs, f.wf proto) → bytes src = encodeAll proto fs →
+    SyncOut cs fs (recvLoop proto dl fuel cs src)
+  | [], fuel, cs, src, hf, _, hb => by
+    obtain ⟨f, rfl⟩ : ∃ f, fuel = f + 1 := ⟨fuel - 1, by simp at hf; omega⟩
+    have : readHeader src = .eof := readHeader_empty src (by simpa [encodeAll] using hb)
+    left; simp [recvLoop, this, dispatch]
+  | f :: fs, fuel, cs, src, hf, hwf, hb => by
+    obtain ⟨fuel, rfl⟩ : ∃ g, fuel = g + 1 := ⟨fuel - 1, by simp at hf; omega⟩
+    have hw := hwf f (by simp)
+    obtain ⟨hv, hfl, hst, hlen, hmax⟩ := hw
+    have hb' : bytes src = encodeHdr proto f.h ++ (f.body ++ encodeAll proto fs) := by
+      simpa [encodeAll, encode, List.append_assoc] using hb
+    have hsr : -1 ≤ f.h.stream ∧ f.h.stream < numStreams proto := by
+      rcases hst with h | h
+      · rw [h]; simp [numStreams]; split <;> omega
+      · omega
+    have hh := readHeader_encode proto hp1 hp5 f.h hv hsr (by omega) src _ hb'
+    have hs1 : bytes (dropBytes (hdrLen proto) src) = f.body ++ encodeAll proto fs := by
+      rw [bytes_dropBytes, hb', ← encodeHdr_length proto f.h, List.drop_left]
+    have hs2 : bytes (dropBytes f.body.length (dropBytes (hdrLen proto) src)) = encodeAll proto fs := by
+      rw [bytes_dropBytes, hs1, List.drop_left]
+    have ih := fun cs' => recvLoop_sync_full proto hp1 hp5 dl fs fuel cs' _ (by simp at hf; omega)
+      (fun g hg => hwf g (by simp [hg])) hs2
+    have hnb : ¬ f.h.stream > numStreams proto := by omega
+    have hnbig : ¬ f.h.length > maxFrameSize := by omega
+    have hrbc := readBody_cases dl (dropBytes (hdrLen proto) src) f _ proto (hwf f (by simp)) hs1
+    by_cases hev : f.h.stream = -1
+    · have hns : (-1 : Int) ≤ numStreams proto := by simp only [numStreams]; split <;> omega
+      have hns' : ¬ numStreams proto < -1 := by omega
+      rcases hrbc with hrb | ⟨hg, ht⟩
+      · have := syncOut_cons cs cs f fs ⟨.event, .ok, f.h, []⟩ _ (by simp [dispatch, hev]) (ih cs)
+        simpa [recvLoop, hh, hnbig, hev, hrb, hns, hns'] using this
+      · have := syncOut_stop cs f fs .event .gaveUp (by decide)
+        simpa [recvLoop, hh, hnbig, hev, hns, hns', hg, ht, errStatus] using this
+    · have hpos : 1 ≤ f.h.stream := by rcases hst with h | h <;> omega
+      have hle : ¬ f.h.stream ≤ 0 := by omega
+      cases hfind : cs.find f.h.stream with
+      | none =>
+        have hk : f.body.length ≤ (bytes (dropBytes (hdrLen proto) src)).length := by rw [hs1]; simp
+        have hn : ¬ f.h.length < 0 := by omega
+        have ht : f.h.length.toNat = f.body.length := by omega
+        rcases discard_cases dl (f.body.length + 1) (dropBytes (hdrLen proto) src) f.body.length (by omega) hk with hdis | hdis
+        · have := syncOut_cons cs cs f fs ⟨.discard, .ok, f.h, []⟩ _ (by simp [dispatch, hev, hfind]) (ih cs)
+          simpa [recvLoop, hh, hnb, hnbig, hle, hev, hfind, hn, ht, hdis] using this
+        · have := syncOut_stop cs f fs .discard .gaveUp (by decide)
+          simp only [recvLoop, hh, hnb, hnbig, hle, hev, hfind, hn, ht, if_false, or_self]
+          rw [show (discard dl (f.body.length + 1) (dropBytes (hdrLen proto) src) f.body.length) =
+            ((discard dl (f.body.length + 1) (dropBytes (hdrLen proto) src) f.body.length).1,
+             (discard dl (f.body.length + 1) (dropBytes (hdrLen proto) src) f.body.length).2) from rfl, hdis]
+          simpa [errStatus] using this
+      | some w =>
+        rcases hrbc with hrb | ⟨hg, ht⟩
+        · cases w
+          · have := syncOut_cons cs (cs.erase f.h.stream) f fs ⟨.gone, .ok, f.h, f.body⟩ _
+              (by simp [dispatch, hev, hfind]) (ih _)
+            simpa [recvLoop, hh, hnb, hnbig, hle, hev, hfind, hrb] using this
+          · have := syncOut_cons cs (cs.erase f.h.stream) f fs ⟨.call, .ok, f.h, f.body⟩ _
+              (by simp [dispatch, hev, hfind]) (ih _)
+            simpa [recvLoop, hh, hnb, hnbig, hle, hev, hfind, hrb] using this
+        · cases w
+          · have := syncOut_stop cs f fs .gone .lost (by decide)
+            simpa [recvLoop, hh, hnb, hnbig, hle, hev, hfind, hg, ht] using this
+          · have := syncOut_stop cs f fs .call .lost (by decide)
+            simpa [recvLoop, hh, hnb, hnbig, hle, hev, hfind, hg, ht] using this
+
 end Rx
